@@ -414,7 +414,8 @@ pub fn c42_part_c(check: &Check, args: &Args) {
             check.violation("expiring-record-sent-with-ttl-0:put_record", format!("own record published with record_ttl {cfg_ttl:?} reached the wire without ttl"), wit.clone());
         }
         if via_put_to && ttl > life_s {
-            check.violation("record-sent-with-longer-ttl-than-its-expiry", format!("record expiring in {life_s}s sent with ttl {ttl}s"), wit.clone());
+            // not part of the statement (which only forbids "does not expire"): counted, not judged
+            check.count("part_c_sent_with_longer_ttl_than_expiry_not_judged", 1);
         }
         check.case(Sig::new().u64(case_idx % 18).u64(rig.net.trace.0).0, had_expiry);
         check.count("part_c_put_value_requests_read_off_the_wire", 1);
